@@ -72,6 +72,25 @@ CLAIMED = {
         technique='abstract interpretation into rewrite templates + '
                   'structural induction; template validity by normal form '
                   'or bounded model enumeration of the extracted terms'),
+    'C13': dict(
+        partial=True,
+        text='DiGraph is analysed at the level of its adjacency dictionary: '
+             'accessors, constructor (symbolic unrolled instances) and '
+             'mutators agree with the adjacency model; effect/alias analysis '
+             'shows that reachability, reversal, subgraph, clone and '
+             'compute_SCCs write nothing reachable from the graph/argument '
+             'and return no mutable object of it (complete); the extracted '
+             'set-builder summaries of subgraph/reversed/clone equal the '
+             'specification on every digraph with <=3 nodes and every node '
+             'subset; the five worklist-closure conditions of reachability '
+             '(each necessary, together sufficient) hold.',
+        ref='3-C13',
+        note='trusted: Python dict/set semantics; bounded comparison of '
+             'extracted summaries (<=3 nodes); worklist conditions are '
+             'recognised on the interpreter loop summary',
+        technique='effect + alias analysis; abstract interpretation into '
+                  'set-builder summaries with bounded equivalence; '
+                  'structural worklist-closure conditions'),
     'C15': dict(
         partial=True,
         text='(1) get_fair_states is summarised by abstract interpretation '
